@@ -576,6 +576,22 @@ class Interp(ExprMixin, LoopMixin, CallMixin):
             if target.id in getattr(fr, 'globals_decl', ()):
                 self.event('global-write', st, name=target.id, value=v)
             fr.locals[target.id] = v
+        elif isinstance(target, (ast.Tuple, ast.List)) and any(isinstance(t, ast.Starred) for t in target.elts):
+            # a, *rest = concrete sequence
+            vv = self.resolve(v)
+            items = vv.items if isinstance(vv, (TupleV, ListV)) and getattr(vv, 'items', None) is not None else None
+            k = next(i for i, t in enumerate(target.elts) if isinstance(t, ast.Starred))
+            after = len(target.elts) - k - 1
+            if items is None or len(items) < len(target.elts) - 1 or sum(isinstance(t, ast.Starred) for t in target.elts) != 1:
+                self.note_unknown(st, 'starred assignment from a sequence of unknown length')
+                for t in target.elts:
+                    self.assign(t.value if isinstance(t, ast.Starred) else t, UnkV('starred unpack'), st)
+                return
+            for t, x in zip(target.elts[:k], items[:k]):
+                self.assign(t, x, st)
+            self.assign(target.elts[k].value, ListV(items=list(items[k:len(items) - after])), st)
+            for t, x in zip(target.elts[k + 1:], items[len(items) - after:]):
+                self.assign(t, x, st)
         elif isinstance(target, (ast.Tuple, ast.List)):
             items = self.unpack(v, len(target.elts), st)
             for t, x in zip(target.elts, items):
